@@ -127,6 +127,17 @@ def tlc(ctx, module, cfg=None, workers=1, env=None, timeout=1800, extra=None, si
     return out
 
 
+def apalache(ctx, module, args, timeout=900):
+    """Run apalache-mc check on mc/<module>.tla; returns True iff 'The outcome is: NoError'. Anything else is a tool error."""
+    outdir = os.path.join(ctx.work, "apalache_" + module)
+    cmd = ["timeout", str(timeout), "apalache-mc", "check", "--out-dir=" + outdir] + args + [module + ".tla"]
+    r = subprocess.run(cmd, cwd=MC, stdout=subprocess.PIPE, stderr=subprocess.STDOUT, text=True)
+    shutil.rmtree(outdir, ignore_errors=True)
+    if "The outcome is: NoError" not in r.stdout:
+        raise ToolError("apalache-mc %s %s did not report NoError:\n%s" % (module, " ".join(args), r.stdout[-1500:]))
+    return True
+
+
 def tlc_stats(out):
     m = re.search(r"(\d+) states generated, (\d+) distinct states found", out)
     if not m:
